@@ -4,7 +4,7 @@ import SdxModel.Solver
 
 1. The directory / archive state machine of one blob name: `build` (clear the working directory, write the tables and
    metadata of *this* dataset, zip the directory), reader construction (`open`: clear the working directory, unpack the
-   archive or fail), damage and deletion of the archive.
+   archive or fail), damage and deletion of the archive, and replacement of the archive by one built elsewhere (`install`).
 2. The request validation and catalog decision of `SyndiffixBlobReader.read`.
 File formats (parquet, zip, npy, json) are outside the model: an archive is its list of members, each tagged with the
 dataset it was written from.
@@ -33,6 +33,7 @@ inductive BlobOp where
   | damage                                           -- truncate / flip bytes of the archive
   | delete                                           -- remove the archive
   | construct                                        -- `SyndiffixBlobBuilder(name, dir)`: constructing a builder writes nothing
+  | install (dataset : Nat) (members : List String)  -- an archive built elsewhere from `dataset` is copied over `<name>.sdxblob.zip`
 deriving Repr, DecidableEq, Inhabited
 
 inductive BlobOut where
@@ -57,6 +58,7 @@ def BlobDir.step (d : BlobDir) : BlobOp → BlobDir × BlobOut
       | _ => ({ d with archive := .corrupt }, .done)
   | .delete => ({ d with archive := .absent }, .done)
   | .construct => (d, .done)
+  | .install ds names => ({ d with archive := .valid (names.map (fun n => (⟨n, ds⟩ : BlobMember))) }, .done)
 
 def BlobDir.run (d : BlobDir) : List BlobOp → BlobDir × List BlobOut
   | [] => (d, [])
